@@ -39,31 +39,26 @@ func Distinct(v reflect.Value) interface{} {
 
 	if jtypes.IsArray(v) {
 		items := arrayify(v)
-		visited := make(map[interface{}]struct{})
 		distinctValues := reflect.MakeSlice(reflect.SliceOf(typeInterface), 0, 0)
 
+		// Values are compared structurally rather than hashed:
+		// arrays cannot be used as map keys, and the printed
+		// form of an object does not distinguish {"a":1} from
+		// {"a":"1"}.
 		for i := 0; i < items.Len(); i++ {
 			item := jtypes.Resolve(items.Index(i))
+			if !item.IsValid() || !item.CanInterface() {
+				continue
+			}
 
-			if jtypes.IsMap(item) {
-				// We can't hash a map, so convert it to a
-				// string that is hashable
-				mapItem := fmt.Sprint(item.Interface())
-				if _, ok := visited[mapItem]; ok {
-					continue
-				}
-				visited[mapItem] = struct{}{}
+			seen := false
+			for j := 0; j < distinctValues.Len() && !seen; j++ {
+				seen = reflect.DeepEqual(distinctValues.Index(j).Interface(), item.Interface())
+			}
+
+			if !seen {
 				distinctValues = reflect.Append(distinctValues, item)
-
-				continue
 			}
-
-			if _, ok := visited[item.Interface()]; ok {
-				continue
-			}
-
-			visited[item.Interface()] = struct{}{}
-			distinctValues = reflect.Append(distinctValues, item)
 		}
 		return distinctValues.Interface()
 	}
